@@ -23,7 +23,17 @@ IDENTITIES = [("Watt", [("Volt", 1), ("Ampere", 1)]), ("Joule", [("Watt", 1), ("
               ("Acceleration", [("Meter", 1), ("Second", -2)]), ("Hectare", [("Meter", 2)]), ("Litre", [("Meter", 3)])]
 
 def mag(rng):
-    """A positive magnitude as (text, Fraction): integer, decimal or exponent notation."""
+    """A magnitude as (text, Fraction): integer, decimal or exponent notation; mostly positive, 12 % negative, 3 % zero."""
+    s = rng.random()
+    if s < 0.03:
+        t = rng.choice(["0", "0.0", "-0", "0e3"])
+        return t, F(0)
+    if s < 0.15:
+        t, v = _mag(rng)
+        return "-" + t, -v
+    return _mag(rng)
+
+def _mag(rng):
     r = rng.random()
     if rng.random() < 0.05:
         # machine-word / limb boundaries and 1 +- 10^-k (core/boundary.py)
@@ -55,7 +65,7 @@ def shard(p):
             first_by_unit.setdefault(e["unit"], e)
         for i in range(p["n"]):
             kind = rng.choice(["same", "same", "same", "miss", "rand", "num", "num"])
-            f1 = V.rand_factors(rng)
+            f1 = V.rand_factors(rng, nmax=3 if rng.random() < 0.97 else rng.choice([6, 9, 14]))
             _, d1 = V.factors_si(f1)
             if kind == "same":
                 f2 = V.factors_for_dims(rng, d1)
